@@ -21,7 +21,7 @@ Definition f_init : fstate := mkF [] [] 0.
 Inductive fop :=
 | FPut (k : key) (v : val) | FDelete (k : key) | FGet (k : key) | FHas (k : key)
 | FFlush | FDropNotFlushed | FPairs | FSizeEst | FSnap | FBatch (ws : list wop)
-| FStat.                                   (* Stat / Compact / InitUnderlyingDb: no visible effect *)
+| FStat | FCompact | FInitDb.               (* Stat, Compact, LazyFlushable.InitUnderlyingDb: no visible effect *)
 Inductive fres := FROk | FRVal (v : option val) | FRBool (b : bool) | FRNum (n : N) | FRContent (l : list (key * val)).
 
 Definition blen (b : list N) : N := N.of_nat (length b).
@@ -41,7 +41,7 @@ Definition fl_step (s : fstate) (o : fop) : fstate * fres :=
   | FSnap => (s, FRContent (flu_iterate (f_over s) (kv_iterate (f_parent s) [] []) None None))
   | FBatch ws => (mkF (flu_write (f_over s) ws) (f_parent s)
                       (fold_left (fun a w => a + wop_est w) ws (f_est s)), FROk)
-  | FStat => (s, FROk)
+  | FStat | FCompact | FInitDb => (s, FROk)
   end.
 
 (* ------------------------------------------------------------------ SyncedPool with handles *)
